@@ -17,9 +17,12 @@
 //     ValidateV2Transaction on a fresh MidState, ValidateTransactionElements, and — when ValidateBlock accepts —
 //     ApplyBlock and RevertBlock.
 //
-// The prediction of both specifications is only: the call returns (a value or an error). A panic, a missed 5 s
-// deadline (twice), an allocation above 64 x input + 1 MiB (three measurements alone), or the death of the process
-// is a violation observed on the real code.
+// The prediction of both specifications is only: the call returns (a value or an error). A violation observed on the
+// real code is: a panic; a call that has not returned after 120 s (5 s makes it a suspect, the same execution is then
+// given the long deadline; calls that return but take more than 1 s are recorded in the evidence as slow_cases); a heap
+// that at its PEAK during the call has grown by more than 64 x input + 1 MiB (total allocation is only the cheap
+// first-stage filter; the verdict is the smallest of three peak measurements in a fresh process); the death of the
+// process.
 package main
 
 import (
@@ -48,6 +51,9 @@ func main() {
 		workerMain(os.Args[2])
 		return
 	}
+	stackMu.Lock()
+	stackBuf = make([]byte, 8<<20) // this process runs many goroutines
+	stackMu.Unlock()
 	c := vlib.Start("C10")
 	if c.Replay != "" {
 		replay(c)
@@ -185,7 +191,7 @@ func main() {
 	if msg := <-canaryDone; msg != "" {
 		c.Infra("self-test of the guard failed: %s", msg)
 	} else {
-		c.Cov("guard_selftest", "synthetic entry points: panic, 8 MiB for 16 bytes, missed deadline and process death detected; benign one not flagged")
+		c.Cov("guard_selftest", "synthetic entry points: panic, 8 MiB held for 16 bytes, no return by the long deadline and process death are flagged; a benign one, a slow one (observation only) and one that churns 16 MiB of garbage while holding 16 KiB are not")
 	}
 	if cat == nil {
 		c.Finish()
@@ -197,8 +203,18 @@ func main() {
 	classSeen := map[string]int{}
 	perEntry := map[string]int64{}
 	outcomes := map[string]int{}
-	remeasured := 0
+	remeasured, churn := 0, 0
+	churnMax := map[string]any{}
+	var churnTop uint64
+	noteChurn := func(u unitLine) {
+		churn += u.Churn
+		if u.ChurnMax > churnTop {
+			churnTop = u.ChurnMax
+			churnMax = map[string]any{"key": u.ChurnKey, "input_bytes": u.ChurnInput, "total_allocated": u.ChurnMax, "peak_heap_growth": u.ChurnPeak, "bound": allocBound(u.ChurnInput)}
+		}
+	}
 	for _, u := range decRes.units {
+		noteChurn(u)
 		perType[u.Type] += u.N
 		evals += int64(u.N)
 		nontrivial += int64(u.N - u.Trivial)
@@ -241,6 +257,7 @@ func main() {
 	jsonTypes, textTypes := map[string]int{}, map[string]int{}
 	jclass := map[string]int{}
 	for _, u := range jsonRes.units {
+		noteChurn(u)
 		evals += int64(u.N)
 		nontrivial += int64(u.N)
 		perEntry[u.Entry] += int64(u.N)
@@ -285,6 +302,8 @@ func main() {
 	c.Cov("json_text_cases_by_class", jclass)
 	c.Cov("worker_processes_killed_by_a_case", decRes.fatal+jsonRes.fatal)
 	c.Cov("cases_remeasured_alone_for_allocation", remeasured)
+	c.Cov("cases_over_the_bound_in_total_allocation_but_not_in_peak_heap", churn)
+	c.Cov("largest_such_case", churnMax)
 
 	// ---- ledger
 	evals += ls.mutants + int64(rs.Rejected)
@@ -334,8 +353,13 @@ func main() {
 	c.Cov("ledger_entry_transaction_pairs_not_applicable", ls.notApplicable)
 	c.Cov("ledger_mutants_accepted_applied_reverted", ls.appliedReverted)
 	c.Cov("ledger_accepted_mutant_classes", len(ls.accepted))
+	c.Cov("ledger_mutants_not_executed_because_no_decoder_produces_the_value", ls.notDecodable)
 	c.Cov("ledger_mutants_skipped_after_confirmed_hang_of_their_class", ls.skippedHung)
 	c.Cov("ledger_entry_point_returned_nil", ls.perEntryOK)
+	for k, v := range ls.slow {
+		noteSlow(k, v)
+	}
+	c.Cov("slow_cases", slowCases)
 	c.Cov("ledger_seconds", secL)
 	c.Cov("executions_per_entry_point", perEntry)
 	c.Cov("outcomes", outcomes)
@@ -369,11 +393,26 @@ func runCanaries(c *vlib.Ctx) string {
 	}
 	out, _ := os.ReadFile(j.Out)
 	got := map[string]bool{}
+	slow, churn := false, false
 	for _, ln := range strings.Split(string(out), "\n") {
 		var v violLine
 		if json.Unmarshal([]byte(ln), &v) == nil && v.K == "viol" {
 			got[v.Key] = true
 		}
+		var sl slowLine
+		if json.Unmarshal([]byte(ln), &sl) == nil && sl.K == "slow" && sl.Key == "canary/slow" {
+			slow = true
+		}
+		var u unitLine
+		if json.Unmarshal([]byte(ln), &u) == nil && u.K == "unit" && u.Churn == 1 && u.ChurnKey == "canary/churns" {
+			churn = true
+		}
+	}
+	if !slow {
+		return "a slow but terminating call was not recorded as an observation"
+	}
+	if !churn {
+		return "a call that churns garbage but holds little was not recognised as such"
 	}
 	want := []string{"canary/panics/panic", "canary/allocates/alloc", "canary/hangs/hang"}
 	for _, k := range want {
@@ -392,6 +431,20 @@ func runCanaries(c *vlib.Ctx) string {
 		return "the death of a worker process was not noticed"
 	}
 	return ""
+}
+
+var (
+	slowMu    sync.Mutex
+	slowCases = map[string]float64{}
+)
+
+// noteSlow records an observation: a call that returned, but slowly.
+func noteSlow(key string, seconds float64) {
+	slowMu.Lock()
+	if slowCases[key] < seconds {
+		slowCases[key] = seconds
+	}
+	slowMu.Unlock()
 }
 
 func minOf(m map[string]int) int {
@@ -501,6 +554,16 @@ func superviseWorker(c *vlib.Ctx, cat *catalogue, j job, dir string) (units []un
 			var v violLine
 			json.Unmarshal(sc.Bytes(), &v)
 			c.Violation(v.Key, v.What, v.Payload)
+		case "slow":
+			var sl slowLine
+			json.Unmarshal(sc.Bytes(), &sl)
+			noteSlow(sl.Key, sl.Seconds)
+		case "infra":
+			var in struct {
+				What string `json:"what"`
+			}
+			json.Unmarshal(sc.Bytes(), &in)
+			c.Infra("worker %s: %s", tag, in.What)
 		case "done":
 			done = true
 			var d struct {
